@@ -230,10 +230,9 @@ func (e *expect) judge(dir string, rc *recovered, mode string, st *ostats) *verd
 	case "crash":
 		revs[e.rev0], revs[e.rev1] = true, true
 	case "old":
+		// a write that reported failure was not applied as far as the counter is concerned: the data call comes first and
+		// the counter is only increased after it succeeded (bytes of the failed write itself may be old or new)
 		revs[e.rev0] = true
-		if e.wr[1] > 0 {
-			revs[e.rev1] = true
-		}
 	case "new":
 		revs[e.rev1] = true
 	}
